@@ -15,8 +15,17 @@ Tie to the source (checked on every run):
 * `C12_instance_step_shape`, `C12_composite_example` are about the REGENERATED `schedule.NewInstanceStep` / `NewOnce` /
   `NewConst` (`Pandora.Gen.Schedule`);
 * the real-time correspondence run (harness/cmd/c12) replays what the real engine did through `Model.C12.run`.
+
+The POOL layer (`Model/C12Pool`): the abstract events "`Run` of an instance returns for reason r", "an out-of-ammo result
+is awaited", "the shared RPS schedule reports its end" are refined to what the code does — single passes of the loop of
+`instance.Run` (which run the finish callback themselves and send a result), the await loop receiving run results and the
+start result, `checkAllInstancesAreFinished`.  `C12_pool_refines` / `C12_pool_inherits`: every theorem above holds for that
+layer; `C12_exit_reason_is_source`: the returns of the REGENERATED `instance.Run` are the exit reasons, each an enabled
+abstract exit; `C12_pool_cancels_run_only_when_all_finished` + `C12_pool_await_is_source`: the pool itself cancels the run
+context only when no instance runs and no result is in flight, with the regenerated counters.
 -/
 import Pandora.Proofs.C12
+import Pandora.Proofs.C12Pool
 import Pandora.Proofs.C12Shape
 import Pandora.Bridge.C12Startup
 import Pandora.Bridge.Waiter
@@ -233,6 +242,78 @@ theorem C12_wait_is_source (w : Waiter) (e : Env) :
     Gen.Waiter.Wait w e = ((waitV .fresh w e).w, (waitV .fresh w e).ok) :=
   Bridge.Waiter.Wait_eq w e
 
+/-! ### the pool layer: passes of `instance.Run`, the await loop, `checkAllInstancesAreFinished` -/
+
+/-- The pool layer refines the abstract transition system: whatever the instances' passes, the await loop and the start
+loop do, in any interleaving, its effect on the abstract state is a run of abstract events. -/
+theorem C12_pool_refines (c : Cfg) (all : List Int) (pevs : List PEvent) :
+    ∃ evs, (poolRun c (PSt.init all) pevs).base = run c (St.init all) evs :=
+  poolRun_refines c all (PSt.init all) pevs (PInv.init c all)
+
+/-- …hence every statement proved for all interleavings of the abstract events (`C12_ids`, `C12_ids_started`,
+`C12_all_tokens_unless`, `C12_all_tokens`, `C12_run_ctx_only_by_run_cancel`, `C12_refines_source`, …) holds in every
+reachable state of the pool layer. -/
+theorem C12_pool_inherits (c : Cfg) (all : List Int) (P : St → Prop) (h : ∀ evs, P (run c (St.init all) evs))
+    (pevs : List PEvent) : P (poolRun c (PSt.init all) pevs).base := by
+  obtain ⟨evs, he⟩ := C12_pool_refines c all pevs
+  rw [he]
+  exact h evs
+
+/-- The link between the returns of `instance.Run` and the exit reasons (formerly only documented): (1) one pass of the
+pool layer is one pass of the REGENERATED `instance.Run`, whose result is read as: error of the body = "out of ammo",
+`ctx.Err()` non-nil = "cancelled", `ctx.Err()` nil = "RPS profile exhausted"; (2) the regenerated loop is the iteration
+of single passes; (3) in every reachable state, a pass of a running instance that sees what the state allows (its
+context is the RUN context, possibly read stale at the loop head) and ends the instance does so with a reason that is
+an ENABLED exit of the abstract system after the finish callback this very pass may have run — "cancelled" only with
+the run context done, "RPS profile exhausted" only for a per-instance profile or once the shared one has reported its
+end, "out of ammo" only when the provider refused this pass; a pass never produces `error` (that is a `Shoot` panic). -/
+theorem C12_exit_reason_is_source :
+    (∀ it e, iterOutcome it e = exitReasonOf (Gen.Startup.instanceRun [it]) e) ∧
+    (∀ it rest, Gen.Startup.instanceRun (it :: rest) =
+      if Gen.Startup.instanceRun [it] = .running then Gen.Startup.instanceRun rest else Gen.Startup.instanceRun [it]) ∧
+    (∀ (c : Cfg) (all : List Int) (pevs : List PEvent) (id : Nat) (it : RunIter) (e ne : Bool) (r : ExitReason),
+      id ∈ (poolRun c (PSt.init all) pevs).base.running →
+      iterMatches (poolRun c (PSt.init all) pevs).base it e ne = true → iterOutcome it e = some r →
+        exitEnabled c (afterCallback c (poolRun c (PSt.init all) pevs).base it ne) r = true ∧
+        (r = .ammoEnd → it.ammoOk = false) ∧
+        (r = .cancelled → (poolRun c (PSt.init all) pevs).base.runCtxDone = true) ∧ r ≠ .error) := by
+  refine ⟨fun it e => ?_, fun it rest => ?_, ?_⟩
+  · unfold iterOutcome
+    rw [Bridge.C12Startup.instanceRun_eq]
+  · simp only [Bridge.C12Startup.instanceRun_eq]
+    exact instRun_cons it rest
+  · intro c all pevs id it e ne r hid hm hr
+    exact iter_exit_enabled c all _ (poolRun_inv c all _ pevs (PInv.init c all)).inv id hid it e ne hm r hr
+
+/-- The pool cancels the run context BY ITSELF (`checkAllInstancesAreFinished`) only when no instance is running and no
+result is in flight, instance start having finished — so that cancellation never reduces the number of running
+instances; and in every reachable state: goroutines launched by `startInstances` (= its `started`) = results awaited +
+results in flight + instances running. -/
+theorem C12_pool_cancels_run_only_when_all_finished (c : Cfg) (all : List Int) (pevs : List PEvent) :
+    let p := poolRun c (PSt.init all) pevs
+    (p.poolCancelled = true → p.base.running = [] ∧ p.pending = [] ∧ p.base.phase = .done) ∧
+      p.aw.awaited + (p.pending.length : Int) + (p.base.running.length : Int) = (p.base.started : Int) := by
+  have h := poolRun_inv c all _ pevs (PInv.init c all)
+  refine ⟨fun hc => ?_, h.count⟩
+  obtain ⟨hr, hp, hsf⟩ := h.cancelled hc
+  exact ⟨hr, hp, (h.startFin hsf).1⟩
+
+/-- The counters and decisions of the await loop used by the pool layer are the regenerated ones: the "all finished"
+condition, the run context as the only context cancelled then, the updates of the counters by the two cases, the check
+being repeated by both of them, what is done with the start error and with a run result (up to the redundant
+`isStartFinished` guard). -/
+theorem C12_pool_await_is_source :
+    (∀ a, Gen.Startup.allFinished a = allFinished a) ∧ Gen.Startup.onAllFinished = [PoolAct.cancel Ctx.run] ∧
+    (∀ a n, Gen.Startup.onStartResAwait a n = onStartResAwait a n) ∧
+    (∀ a, Gen.Startup.onRunResAwait a = onRunResAwait a) ∧
+    Gen.Startup.startResChecksAll = true ∧ Gen.Startup.runResChecksAll = true ∧
+    (∀ ce, Gen.Startup.onStartResult ce = onStartResult ce) ∧
+    (∀ a sf ce, Gen.Startup.onInstanceResult a sf ce = onRunResult a sf ce ∨
+      (a = true ∧ sf = true ∧ Gen.Startup.onInstanceResult a sf ce = [PoolAct.cancel Ctx.start])) :=
+  ⟨Bridge.C12Startup.allFinished_eq, Bridge.C12Startup.onAllFinished_eq, Bridge.C12Startup.onStartResAwait_eq,
+    Bridge.C12Startup.onRunResAwait_eq, Bridge.C12Startup.checksAll_eq.1, Bridge.C12Startup.checksAll_eq.2,
+    Bridge.C12Startup.onStartResult_eq, Bridge.C12Startup.onInstanceResult_model⟩
+
 /-! ### the profiles -/
 
 /-- `instance_step`: the REGENERATED `NewInstanceStep(from, to, step, d)`, started at 0, emits `from` tokens at 0 and then
@@ -275,12 +356,20 @@ theorem C12_const_shape (k q S s0 : ℤ) (hk : 0 < k) (hq : k * q = 1000000000) 
 
 /-- The token times the executable Spec computes for a startup profile — the ones every correspondence case compares
 with what the REAL schedule hands out (`fail:step-shape`) — are those of the composite of the regenerated
-`NewOnce` / `NewConst` / `NewInstanceStep`, for every composite of once / const / instance_step parts for which the Spec
-computes them at all. -/
+`NewOnce` / `NewConst` / `NewInstanceStep`, for every composite — flat or NESTED — of once / const / instance_step parts for which the
+Spec computes them at all. -/
 theorem C12_profile_tokens (ps : List Spec.C12.Part) (s0 : ℤ) (l : List ℤ)
     (h : Spec.C12.partsToks ps s0 = some l) :
-    l = (Proofs.C12Shape.toksList (ps.map Proofs.C12Shape.schedOf) s0).1 :=
+    l = (Proofs.C12Shape.toksList (Proofs.C12Shape.schedsOf ps) s0).1 :=
   Proofs.C12Shape.partsToks_eq ps s0 l h
+
+/-- Nested composites: a composite used as a part of a composite contributes exactly the tokens of its own parts, in
+place, and the part after it starts at ITS finish time — the profile is that of the flat sequence, whatever the
+bracketing (denotation of `Sched.composite`; compared with the real `compositeSchedule` on every correspondence case,
+which include randomly bracketed profiles). -/
+theorem C12_nested_composite_flat (a b : List Pandora.Sched) (s0 : ℤ) :
+    Proofs.C12Shape.toksList (.composite a :: b) s0 = Proofs.C12Shape.toksList (a ++ b) s0 :=
+  Proofs.C12Shape.toks_nested a b s0
 
 /-! ### non-vacuity -/
 
@@ -288,6 +377,9 @@ theorem C12_profile_tokens (ps : List Spec.C12.Part) (s0 : ℤ) (l : List ℤ)
 example : Spec.C12.partsToks [.once 2, .const 0 500, .step 1 3 1 1000, .const 2 1000] 0 =
     some [0, 0, 500000000, 1500000000, 2500000000, 2500000000, 3000000000] := by decide
 example : (0 : ℤ) < 4 ∧ (4 : ℤ) * 250000000 = 1000000000 := by decide
+/-- …and a nested one: the same tokens as the flat sequence once:1, pause 500 ms, once:1, pause 500 ms, once:2 -/
+example : Spec.C12.partsToks [.comp [.once 1, .const 0 500], .comp [.once 1, .comp [.const 0 500, .once 2]]] 0 =
+    some [0, 500000000, 1000000000, 1000000000] := by decide
 
 
 /-- startup tokens at 0, 1 s, 2 s; the loop starts two instances (the second after sleeping on its timer), ammo runs out
@@ -341,6 +433,44 @@ example : (run {} (St.init [0]) [ .wait { tok := some 0, now := 1, arm := 1, ret
 example : Gen.Startup.instanceRun [{}, {}, { ammoOk := false }] = .body .outOfAmmo := by decide
 example : Gen.Startup.instanceRun [{}, { left := 0 }] = .ctxErr := by decide
 example : Gen.Startup.instanceRun [{}, { waitOk := false }] = .running := by decide
+/-- the pool layer on the demo profile: instance 0 starts, a pass of its loop is refused ammo (exit "out of ammo", the
+result is in flight), the await loop receives it and cancels instance start, the start loop returns, its result is
+received — and only then the pool cancels the run, nothing running, nothing in flight -/
+def demoPool : List PEvent :=
+  [ .loop (.wait { tok := some 0, pick := 10, now := 20, arm := 20, ret := 30 } true 5),
+    .iter 0 {} false false,
+    .iter 0 { ammoOk := false } false false,
+    .recvRun 0,
+    .loop (.wait { ctxDone := true, tok := some 1000000000 } true 0),
+    .recvStart ]
+example : (poolRun {} (PSt.init demoToks) (demoPool.take 3)).pending = [(0, .exit .ammoEnd)] ∧
+    (poolRun {} (PSt.init demoToks) (demoPool.take 3)).base.running = [] ∧
+    (poolRun {} (PSt.init demoToks) (demoPool.take 4)).base.startCtxDone = true ∧
+    (poolRun {} (PSt.init demoToks) (demoPool.take 5)).poolCancelled = false ∧
+    (poolRun {} (PSt.init demoToks) demoPool).poolCancelled = true ∧
+    (poolRun {} (PSt.init demoToks) demoPool).aw = { startFinished := true, started := 1, awaited := 1 } := by decide
+/-- hypotheses of `C12_exit_reason_is_source` (3): a running instance, a pass that sees `Left() == 0` on the SHARED
+schedule with the run alive: it runs the finish callback itself and leaves with "RPS profile exhausted" -/
+example : (0 : Nat) ∈ (poolRun {} (PSt.init demoToks) (demoPool.take 2)).base.running ∧
+    iterMatches (poolRun {} (PSt.init demoToks) (demoPool.take 2)).base { left := 0 } false false = true ∧
+    iterOutcome { left := 0 } false = some .scheduleEnd ∧
+    (poolRun {} (PSt.init demoToks) (demoPool.take 2 ++ [.iter 0 { left := 0 } false false])).base.sharedRpsDone = true ∧
+    (poolRun {} (PSt.init demoToks) (demoPool.take 2 ++ [.iter 0 { left := 0 } false false])).base.startCtxDone = true := by
+  decide
+/-- a pass that claims a done context while the run is alive is not an event of the layer (the instance is given the RUN
+context): nothing happens -/
+example : (poolRun {} (PSt.init demoToks) (demoPool.take 2 ++ [.iter 0 { ctxDone := true } true false])).base.running = [0] := by
+  decide
+/-- a later instance whose `newInstance` fails in its goroutine sends an error result: the pool fails (run cancelled) -/
+example : (poolRun {} (PSt.init [0, 0]) [ .loop (.wait { tok := some 0, now := 1, arm := 1, ret := 1 } true 0),
+    .loop (.wait { tok := some 0, now := 2, arm := 2, ret := 2 } false 0) ]).pending = [(1, .createErr)] ∧
+    (poolRun {} (PSt.init [0, 0]) [ .loop (.wait { tok := some 0, now := 1, arm := 1, ret := 1 } true 0),
+    .loop (.wait { tok := some 0, now := 2, arm := 2, ret := 2 } false 0), .recvRun 0 ]).base.runCtxDone = true := by decide
+/-- hypotheses of `C12_pool_await_is_source`: the regenerated condition on concrete counters -/
+example : Gen.Startup.allFinished { startFinished := true, started := 3, awaited := 3 } = true ∧
+    Gen.Startup.allFinished { startFinished := true, started := 3, awaited := 2 } = false ∧
+    Gen.Startup.allFinished { startFinished := false, started := -1, awaited := 0 } = false := by decide
+
 /-- instance_step 10 → 100 step 10 of docs/eng/startup.md: 10 at once, 9 more steps -/
 example : stepCount 10 100 10 = 9 := by decide
 example : (instanceStepToks 2 5 3 500).length = 5 ∧ instanceStepToks 2 5 3 500 = [0, 0, 500, 500, 500] := by decide
